@@ -170,6 +170,22 @@ package keeper
 // ---------------------------------------------------------------------------------------------
 // Message handlers (C09): the signer named in the message is the party the keeper checks
 
+// Issue through the message handler: the issued token is the signer's, under a symbol and min unit nobody held, and
+// the issue fee is taken from the signer alone (no third account is touched)
+//@ func msgServer.IssueToken
+//@   property C09
+//@   returns resp, err
+//@   requires paramsStored && msg.Scale <= 18 && (msg.MaxSupply == 0 || msg.InitialSupply <= msg.MaxSupply)
+//@   requires msg.InitialSupply <= 100000000000 && msg.MaxSupply <= 1000000000000 && len(msg.Symbol) >= 3
+//@   requires !has(byMinUnit, msg.MinUnit) ==> supply(msg.MinUnit) == 0
+//@   requires (forall s:Str :: tokWF(s)) && (forall u:Str :: minUnitWF(u))
+//@   modifies tokens, byMinUnit, byOwner, byContract, bal, supply
+//@   ensures fresh:  err == nil ==> !old(has(tokens, msg.Symbol)) && !old(has(byMinUnit, msg.MinUnit))
+//@   ensures owned_by_signer: err == nil ==> has(tokens, msg.Symbol) && get(tokens, msg.Symbol).Owner == msg.Owner && get(tokens, msg.Symbol).Symbol == msg.Symbol
+//@          && get(tokens, msg.Symbol).MinUnit == msg.MinUnit && get(byMinUnit, msg.MinUnit) == msg.Symbol
+//@   ensures others_untouched: err == nil ==> (forall a:Bytes :: forall d:Str :: a != addr(msg.Owner) && a != MOD && a != macc(m.k.feeCollectorName) ==> bal(a, d) == old(bal(a, d)))
+//@ end
+
 //@ func msgServer.EditToken
 //@   property C09
 //@   returns resp, err
@@ -211,6 +227,13 @@ package keeper
 //@   requires has(byMinUnit, msg.Coin.Denom) ==> supply(msg.Coin.Denom) <= capOf(t0) && len(sym) >= 3
 //@   modifies bal, supply
 //@   ensures signer_is_owner: err == nil ==> has(byMinUnit, msg.Coin.Denom) && msg.Owner == t0.Owner && t0.Mintable
+// the mint fee is charged to the owner: a receiver other than the owner gets exactly the minted coins and pays nothing,
+// and no third account is touched
+//@   ensures receiver_pays_nothing: err == nil && len(msg.Receiver) != 0 && addr(msg.Receiver) != addr(msg.Owner) && addr(msg.Receiver) != MOD
+//@          && addr(msg.Receiver) != macc(m.k.feeCollectorName)
+//@          ==> (forall d:Str :: bal(addr(msg.Receiver), d) == old(bal(addr(msg.Receiver), d)) + ite(d == msg.Coin.Denom, msg.Coin.Amount, 0))
+//@   ensures others_untouched: err == nil ==> (forall a:Bytes :: forall d:Str :: a != addr(msg.Owner) && a != addr(msg.Receiver) && a != MOD && a != macc(m.k.feeCollectorName)
+//@          ==> bal(a, d) == old(bal(a, d)))
 //@ end
 
 // ---------------------------------------------------------------------------------------------
